@@ -16,7 +16,8 @@ import (
 type Spell struct {
 	Sp     string   // whitespace between the parts of a tag or object (default " ")
 	Quote  byte     // preferred quote character (default ")
-	Delims []string // objectLeft, objectRight, tagLeft, tagRight (default {{ }} {% %})
+	Delims []string // objectLeft, objectRight, tagLeft, tagRight (default {{ }} {% %}), as spelled in the template
+	Raw    []string // what is passed to Engine.Delims (an empty string selects the default), nil: not configured
 	Tight  bool     // no whitespace just inside the delimiters
 }
 
@@ -33,7 +34,14 @@ func spellFromJSON(x any) Spell {
 		s.Quote = '\''
 	}
 	if d := jarr(m, "delims"); len(d) == 4 {
-		s.Delims = []string{bytesOf(d[0]), bytesOf(d[1]), bytesOf(d[2]), bytesOf(d[3])}
+		s.Raw = []string{bytesOf(d[0]), bytesOf(d[1]), bytesOf(d[2]), bytesOf(d[3])}
+		eff := []string{"{{", "}}", "{%", "%}"}
+		for i, x := range s.Raw {
+			if x != "" {
+				eff[i] = x
+			}
+		}
+		s.Delims = eff
 	}
 	s.Tight = jbool(m, "tight")
 	return s
